@@ -168,7 +168,12 @@ def _gen_dense(r, cplx=None, shape=None, pat=None, mag=None, sym=None):
     if nr == nc and sym in ("exact", "tiny"):
         A = np.triu(A) + np.triu(A, 1).T
         if sym == "tiny" and nr > 1:
-            A[1, 0] = A[1, 0] * (1 + 1e-9) if A[1, 0] != 0 else A[1, 0]
+            if A[1, 0] != 0:
+                # (scale component-wise and towards zero when the value sits at the top
+                # of the double range: the generator must stay inside "finite doubles")
+                z = complex(A[1, 0])
+                f = 1 + 1e-9 if max(abs(z.real), abs(z.imag)) < 1e300 else 1 - 1e-9
+                A[1, 0] = z.real * f + 1j * z.imag * f if np.iscomplexobj(A) else z.real * f
     return A, {"shape": [nr, nc], "pat": pat, "mag": mag, "cplx": cplx, "sym": sym}
 
 
